@@ -216,11 +216,12 @@ PROPS["C04"] = {
 PROPS["C15"] = {
     "level": "proof",
     "technique": "Lean 4 proof (generic NAL-unit round trip for a bitstream-syntax DSL on the proved EBSP writer/reader; AVC SPS with VUI/HRD/scaling lists as a DSL term; picture size = the standard's derivation) + model-vs-parser correspondence on independently serialised SPS + independent-serialiser oracle for all eight syntaxes",
-    "level_text": "PARTIAL in model coverage. Proved (Props/C15.lean): for every syntax expressible in the DSL of Model/BitSyn.lean and every in-range value assignment, the NAL unit written by an independent serialiser (emulation prevention, trailing bits) parses back to exactly those values with no error and every byte accounted for; instantiated for the full AVC SPS syntax as avc/sps.go reads it (Model/AvcSps.lean); the parser's width/height equals the standard's cropping derivation for every valid SPS (and a kernel-checked witness that this fails for value assignments the syntax excludes). Tie: every generated AVC SPS (and truncations of it, for the error path) is parsed by the model and by avc.ParseSPSNALUnit and the complete field records compared. AVC PPS and slice header, HEVC VPS/SPS/PPS/slice header, configuration records, codec strings and sample entries are decided by the direct oracle only: the harness's own bit writer serialises random field values of each syntax (all profiles, scaling lists, poc types, frame/field, cropping, VUI/HRD, sub-layers, short-term RPS incl. inter prediction, extensions, pps id != sps id, several parameter sets per map, all slice types) and every exposed field, the derived size, the slice-header length and the record/codec-string contents are compared.",
+    "level_text": "Proved (Props/C15.lean): for every syntax expressible in the DSL of Model/BitSyn.lean and every in-range value assignment, the NAL unit written by an independent serialiser (emulation prevention, trailing bits) parses back to exactly those values with no error and every byte accounted for; instantiated for the full AVC SPS syntax as avc/sps.go reads it (Model/AvcSps.lean); the parser's width/height equals the standard's cropping derivation for every valid SPS (and a kernel-checked witness that this fails for value assignments the syntax excludes). Props/C15b.lean: the same for the AVC PPS (prefix syntax + more_rbsp_data look-ahead + tail sized by the SPS's chroma format), the AVC slice header (parameterised by the SPS/PPS maps: slice -> PPS -> SPS), the HEVC SPS (profile_tier_level with sub-layers, scaling lists, short-term RPS incl. inter-RPS prediction, long-term pictures, VUI/HRD, the four extensions, ImageSize = the standard's formula), the HEVC PPS (with range / multilayer / 3D / SCC extensions) and the HEVC slice header, each with a termination bound on every byte string. Tie: every generated NAL unit of these six syntaxes (and truncations and hostile variants of it) is parsed by the model and by the Go parser and the complete field records compared (ops avcspsm, avcppsm, avcslicem, hevcspsm, hevcppsm, hevcslicem; about 58 000 lines per quick run). Configuration records, codec strings and sample entries are decided by the direct oracle only; for all syntaxes the direct oracle also runs: the harness's own bit writer serialises random field values of each syntax (all profiles, scaling lists, poc types, frame/field, cropping, VUI/HRD, sub-layers, short-term RPS incl. inter prediction, extensions, pps id != sps id, several parameter sets per map, all slice types) and every exposed field, the derived size, the slice-header length and the record/codec-string contents are compared.",
     "level_note": "Trusted: Lean kernel, allowed axioms, hand transcription of avc/sps.go validated by correspondence; the harness's independent serialiser (c15_esgen.go, c15_eshevc.go).",
-    "trusted": ["Model/AvcSps.lean hand transcription of avc/sps.go (ParseSPSNALUnit with full VUI)", "harness serialiser of the ISO/IEC 14496-10 and 23008-2 syntaxes"],
-    "unmodelled": ["AVC PPS (MoreRbspData-dependent tail), AVC slice header, HEVC VPS/SPS/PPS/slice header: direct oracle only", "decoder configuration records, codec strings, Set{AVC,HEVC}Descriptor: direct oracle only"],
-    "partial": ["only the AVC SPS is modelled and proved; the other seven syntaxes are covered by the independent-serialiser oracle"],
+    "trusted": ["Model/AvcSps.lean hand transcription of avc/sps.go (ParseSPSNALUnit with full VUI)", "Model/AvcPps.lean, AvcSlice.lean, HevcSps.lean, HevcPps.lean, HevcSlice.lean: hand transcriptions of avc/pps.go, avc/slice.go, hevc/sps.go, hevc/pps.go, hevc/slice.go (reads of computed width as one condition per width, Read(48) as 16+32 bits, read-until-error loops capped by the bit length of the NAL unit: listed in the model file headers), validated by the avcppsm / avcslicem / hevcspsm / hevcppsm / hevcslicem correspondence ops", "harness serialiser of the ISO/IEC 14496-10 and 23008-2 syntaxes"],
+    "extra_props": ["C15b"],
+    "unmodelled": ["an AVC slice NAL unit that ends inside its header (the parser returns a partly zero-filled struct without error: compared as class `trunc` only)", "HEVC VPS (the library has no parser)", "decoder configuration records, codec strings, Set{AVC,HEVC}Descriptor: direct oracle only"],
+    "partial": ["HEVC slice header: round trip at bit level and termination with the generic depth bound only (no closed-form fuel constant)"],
     "assumptions": ["values in range: u(k) fits, ue(v) < 2^32, se(v) within 32 bits"],
 }
 
@@ -228,10 +229,11 @@ PROPS["C15"] = {
 PROPS["C16"] = {
     "level": "proof",
     "technique": "Lean 4 proof (NAL-unit walkers total and bounded by the input on every byte string; every parser written in the syntax DSL is total with a syntactic bound on its output, instantiated for the AVC SPS) + model-vs-code correspondence on hostile inputs + isolated-worker exploration for the runtime clauses (panic, wall time, allocation)",
-    "level_text": "PARTIAL by nature. Proved (Props/C16.lean, for every byte string): the length-prefixed walkers of avc/nalus.go, avc/avc.go, hevc/hevc.go, avc/annexb.go (Model/Nalu.lean, checked cursor) return only pieces of the input (sum of lengths + 4 per unit <= |s|), at most one type per 4 bytes, rewrite in place without changing the length, and stop within |s|+1 steps; every parser expressible in the bitstream-syntax DSL returns on every reader state within a purely syntactic fuel bound with at most a syntactic number of values, and for the AVC SPS these bounds are the constants 5124 steps / 1305 values. Tie: the models answer the same hostile inputs as the real helpers (54 000 lines per quick run: walkers on damaged length fields / short samples / random bytes, ADTS and AudioSpecificConfig decoders, SEI extraction and typed SEI decoders on short payloads, AVC SPS with bit flips / huge Exp-Golomb codes / random bodies) and the answers are compared. NOT provable in a model and decided by exploration: absence of Go panics, time and allocation of the 65 real entry points (avc, hevc, sei, aac, av1, and the library call sequences of mp4ff-nallister / mp4ff-pslister); each (entry point, input) pair runs in an isolated child process (RLIMIT_AS, GOMAXPROCS=1, marker before each entry point so that a dying worker names the culprit); oracle: returns, no panic, time <= 100 ms + 4 us/byte (re-run alone before reporting), TotalAlloc <= 512*len + 256 KiB.",
+    "level_text": "PARTIAL by nature. Proved (Props/C16.lean, for every byte string): the length-prefixed walkers of avc/nalus.go, avc/avc.go, hevc/hevc.go, avc/annexb.go (Model/Nalu.lean, checked cursor) return only pieces of the input (sum of lengths + 4 per unit <= |s|), at most one type per 4 bytes, rewrite in place without changing the length, and stop within |s|+1 steps; every parser expressible in the bitstream-syntax DSL returns on every reader state within a purely syntactic fuel bound with at most a syntactic number of values, and for the AVC SPS these bounds are the constants 5124 steps / 1305 values; Props/C15b.lean gives the corresponding bounds, linear in the NAL unit length, for the AVC PPS, AVC slice header, HEVC SPS, HEVC PPS and HEVC slice header models. Tie: the models answer the same hostile inputs as the real helpers (54 000 lines per quick run: walkers on damaged length fields / short samples / random bytes, ADTS and AudioSpecificConfig decoders, SEI extraction and typed SEI decoders on short payloads, AVC SPS with bit flips / huge Exp-Golomb codes / random bodies) and the answers are compared. NOT provable in a model and decided by exploration: absence of Go panics, time and allocation of the 65 real entry points (avc, hevc, sei, aac, av1, and the library call sequences of mp4ff-nallister / mp4ff-pslister); each (entry point, input) pair runs in an isolated child process (RLIMIT_AS, GOMAXPROCS=1, marker before each entry point so that a dying worker names the culprit); oracle: returns, no panic, time <= 100 ms + 4 us/byte (re-run alone before reporting), TotalAlloc <= 512*len + 256 KiB.",
     "level_note": "Trusted: Lean kernel, allowed axioms, hand transcriptions validated by correspondence; harness workers (RLIMIT_AS, watchdog, TotalAlloc accounting).",
     "trusted": ["Model/Nalu.lean, Model/AvcSps.lean, Model/Aac.lean, Model/Sei.lean hand transcriptions", "harness workers and measurement"],
-    "unmodelled": ["HEVC parameter-set and slice-header parsers, AVC PPS / slice header, configuration-record decoders, String()/Payload() methods: runtime exploration only"],
+    "extra_props": ["C15b"],
+    "unmodelled": ["configuration-record decoders, String()/Payload() methods: runtime exploration only"],
     "partial": ["no-panic, time and memory clauses are decided by exploration (about 4 000 000 evaluations quick, 48 000 000 thorough), not by proof; the theorems bound the modelled walkers and the AVC SPS parser"],
     "assumptions": [],
 }
